@@ -405,6 +405,13 @@ def check_stitch(case):
                      ('both-gap', G, B, [(G[i], B[i]) for i in range(k)])]
             if direction == 'inc':
                 modes.append(('both', [None] + B[:-1], B, [(None if i == 0 else B[i - 1], B[i]) for i in range(k)]))
+            if k >= 3:
+                # a missing bound is unbounded: the LAST upper bound / the FIRST lower bound left open (None), in both list directions
+                # (with two series a list [x, None] has no direction: only k >= 3)
+                UO = B[:-1] + [None]
+                modes.append(('ub-open', None, UO, [(None if i == 0 else B[i - 1], UO[i]) for i in range(k)]))
+                LO = [None] + B[1:]
+                modes.append(('lb-open', LO, None, [(LO[i], B[i + 1] if i + 1 < k else None) for i in range(k)]))
             for mode, L, U, intervals in modes:
                 ns = range(1, k + 1) if direction == 'inc' else sorted(set([1, k]))
                 for n in ns:
@@ -423,7 +430,7 @@ def check_stitch(case):
                         series = fresh()
                         snaps = [(s.index.copy(), s.values.copy()) for s in series]
                         continue
-                    ok = _compare_stitch(out, res, exp_t, exp_r, n, U[-1] if mode != 'lb' else None, label, sig)
+                    ok = _compare_stitch(out, res, exp_t, exp_r, n, U[-1] if mode not in ('lb', 'lb-open') else None, label, sig)
                     if not untouched(given) or (gl is not None and gl != given_list(L)) or (gu is not None and gu != given_list(U)):
                         out.viol('stitch-argument-modified', '%s changed its arguments' % label, **sig)
                         series = fresh()
